@@ -121,7 +121,7 @@ func c14CheckAll(srv *drive.Srv, reg c14Registry) string {
 }
 
 func runC14(run *common.Run) {
-	run.Rule = "case = one program on one engine: 40-120 admin and data requests over 2 parents (one a string prefix of the other) x 3 table ids: CreateTable with families and GC rules, DeleteTable, re-create, ModifyColumnFamilies with 1-4 modifications (create/update/drop, a failing one at any position, create-then-drop and drop-then-create of one id), DropRowRange (12 prefixes incl. empty, whole keys, ...\\xff, no match; delete-all), MutateRow. After EVERY request: ListTables per parent, GetTable + full scan of every live table, NotFound probes (GetTable, MutateRow, ReadRows) on every non-existent name, all compared with a registry + data model. Part 'big': prefix drops of 1 / 10 / 100 / 1000+ rows (incl. prefixes made of 0xff bytes), a family drop, a drop-and-re-create of one family in one request and a delete-all on a table of 1500-3000 rows, whole table compared after every request. Non-trivial = program contained at least three of: a failed multi-modification request, a family drop that removed cells, a prefix drop that removed some but not all rows, a delete-and-re-create of a table (each counted separately in 'observed'); distinct by program x engine."
+	run.Rule = "case = one program on one engine: 40-120 admin and data requests over 2 parents (one a string prefix of the other) x 3 table ids: CreateTable with families and GC rules, DeleteTable, re-create, ModifyColumnFamilies with 1-4 modifications (create/update/drop, a failing one at any position, create-then-drop and drop-then-create of one id), DropRowRange (12 prefixes incl. empty, whole keys, ...\\xff, no match; delete-all), MutateRow and ReadModifyWriteRow appends. After EVERY request: ListTables per parent, GetTable + full scan of every live table, NotFound probes (GetTable, MutateRow, ReadRows) on every non-existent name, all compared with a registry + data model. Part 'big': prefix drops of 1 / 10 / 100 / 1000+ rows (incl. prefixes made of 0xff bytes), a family drop, a drop-and-re-create of one family in one request and a delete-all on a table of 1500-3000 rows, whole table compared after every request. Non-trivial = program contained at least three of: a failed multi-modification request, a family drop that removed cells, a prefix drop that removed some but not all rows, a delete-and-re-create of a table (each counted separately in 'observed'); distinct by program x engine."
 	run.Assumptions = []string{"DropRowRange with an empty prefix may be rejected or remove every row", "ModifyColumnFamilies error codes are not compared (any non-OK), CreateTable on an existing table must be AlreadyExists, requests on missing tables NotFound"}
 	j := common.NewJournal("C14")
 	nprog := run.N(150, 1500)
@@ -280,6 +280,13 @@ func c14Big(run *common.Run, prog int, engine string, idx int) {
 	run.Case(common.Hash64("big", engine, fmt.Sprint(steps)), true)
 	run.Count("big_table_programs", 1)
 	run.Max("max_rows_in_big_table", int64(N))
+}
+
+func m0Families(m *model.Table) map[string]*model.GcRule {
+	if m == nil {
+		return nil
+	}
+	return m.Families
 }
 
 func c14Program(run *common.Run, prog int, engine string, idx int) {
@@ -484,9 +491,43 @@ func c14Program(run *common.Run, prog int, engine string, idx int) {
 					sawPartialPrefix = true
 				}
 			}
-		default: // data: MutateRow
+		default: // data: MutateRow, or ReadModifyWriteRow appends (a different write path in the server)
 			for rep := 0; rep < 3; rep++ {
 				key := common.Pick(r, c14Keys)
+				if r.Chance(1, 3) {
+					var fs []string
+					for f := range m0Families(m) {
+						fs = append(fs, f)
+					}
+					sort.Strings(fs)
+					var rules []drive.Rule
+					for i, n := 0, r.Range(1, 2); i < n; i++ {
+						fam := common.Pick(r, c14FamPool)
+						if len(fs) > 0 && r.Chance(3, 4) {
+							fam = common.Pick(r, fs)
+						}
+						rules = append(rules, drive.Rule{Fam: fam, Qual: common.Pick(r, []string{"q", "log"}), Append: true, Val: fmt.Sprint("+", s)})
+					}
+					st, _ := drive.ReadModifyWrite(srv.Data, name, key, rules)
+					steps = append(steps, fmt.Sprintf("ReadModifyWriteRow(%s,%q,%v) -> %s", name, key, rules, st))
+					if !live {
+						if st.Code != codes.NotFound {
+							fail("ReadModifyWriteRow on a non-existent table: got " + st.String() + " want NotFound")
+							return
+						}
+						continue
+					}
+					v, nr, _ := m.RMW(key, toModelRules(rules), gen.BaseClock)
+					if (v == model.MustOK && !st.OK()) || (v == model.MustErr && st.OK()) {
+						fail(fmt.Sprintf("ReadModifyWriteRow: expected %s got %s", v, st))
+						return
+					}
+					if st.OK() {
+						m.Commit(key, nr)
+						run.Count("rows_written_through_read_modify_write", 1)
+					}
+					continue
+				}
 				var muts []model.Mut
 				nmu := r.Range(1, 4)
 				for i := 0; i < nmu; i++ {
